@@ -23,7 +23,9 @@ def quantity_strings():
 
 
 def concentration_strings():
-    units = [p + b for b in ('mol', 'g', 'L', 'U') for p in PREFIXES if not (b == 'U' and p)]
+    # (a prefixed activity unit is no quantity on its own - parse_quantity documents the bare U - but a ratio such as kU/g or
+    # mU/mL is an ordinary concentration, and the library reads it as such)
+    units = [p + b for b in ('mol', 'g', 'L', 'U') for p in PREFIXES]
     for v in CVALUES:
         for n in units:
             for dv in DVALUES:
